@@ -95,11 +95,7 @@ def run(run, rng):
     n = N[run.tier]
     for i in range(n):
         case = gen_case(rng)
-        try:
-            with timebox(60):
-                check_case(run, case, determinism=(i % (6 if run.tier == 'quick' else 40) == 0))
-        except CaseTimeout:
-            run.inconc('case watchdog')
+        run.guard(case, check_case, determinism=(i % (6 if run.tier == 'quick' else 40) == 0), seconds=60)
 
 def replay(run, case):
     check_case(run, case['case'], determinism=True)
